@@ -263,7 +263,36 @@ def r1(rep, prog):
         why += "; filter excludes %s" % sorted(excl)
         # arm: the filter block is only reachable through the '0' edge of the switch on the atomic load
         loads = [(lb_, lt) for lb_, lt in lb.calls() if "Atomic" in lt.get("f", "") and lt.get("f", "").endswith("::load")]
-        if len(loads) != 1:
+        # ... or the flag is captured by the filter closure, which keeps everything when it is set
+        # (`filter(|c| include || *c != &TempStore)`): a switch on the captured flag inside the closure whose set arm never
+        # reaches the comparison, the captured value being the atomic load
+        captured_ok = False
+        if cb is not None and len(loads) == 1:
+            from ..rules import closure_capture
+            for sbk in cb.normal_blocks():
+                swc = cb.term(sbk)
+                if swc["k"] != "switch" or op_local(swc["on"]) is None:
+                    continue
+                trc = trace_back(cb, op_local(swc["on"]))
+                if not (trc and trc[-1] == ("param", 1)):
+                    continue
+                fl = [x for x in trc if x[0] == "field"]
+                if not fl:
+                    continue
+                cap = closure_capture(prog, cb.id, fl[-1][1])
+                if cap is None:
+                    continue
+                pl_ = op_local(cap[1])
+                trp = trace_back(lb, pl_) if pl_ is not None else []
+                if not (trp and trp[-1][0] == "call" and trp[-1][2] == loads[0][0]):
+                    continue
+                neb = {nb_ for nb_, ct in cb.calls() if ct.get("f", "").endswith("PartialEq::ne")}
+                set_arms = [tg for v, tg in swc["vals"] if v != "0"] + ([swc["else"]] if "0" in [v for v, _ in swc["vals"]] else [])
+                if neb and not (neb & cb.reachable(tuple(set_arms))):
+                    captured_ok = True
+        if captured_ok:
+            why += "; the closure keeps every component when the captured include flag is set"
+        elif len(loads) != 1:
             okf = False
         else:
             sw = lb.term(loads[0][1]["to"])
@@ -340,6 +369,12 @@ def r2(rep, prog):
         rule_must_pass(rep, prog, R, lf.id, {"tantivy::index::index::Index::list_all_segment_metas"}, "Index::list_all_segment_metas (inventory)", exits="all")
         ins = [(b, t) for b, t in lf.calls() if t.get("f", "").endswith("HashSet::<T, S, A>::insert")]
         okm = any(("static", "tantivy::core::META_FILEPATH") in provenance(lf, op_local(t["args"][1]), extra_transparent=tuple(prog.names(r"Path::to_path_buf$"))) for b, t in ins)
+        if not okm:
+            # `.chain(iter::once(META_FILEPATH.to_path_buf()))` before the collect: the same element added by the iterator chain
+            once = [(b, t) for b, t in lf.calls() if (t.get("f") or "").endswith("iter::sources::once::once") or (t.get("f") or "").endswith("iter::once")]
+            chains = [b for b, t in lf.calls() if (t.get("f") or "").endswith("Iterator::chain")]
+            okm = bool(chains) and any(t.get("args") and op_local(t["args"][0]) is not None and ("static", "tantivy::core::META_FILEPATH") in
+                                       provenance(lf, op_local(t["args"][0]), extra_transparent=tuple(prog.names(r"Path::to_path_buf$"))) for b, t in once)
         rep.check(okm, R, "list_files always includes meta.json", "insert(META_FILEPATH)", "SegmentUpdater::list_files does not insert META_FILEPATH: GC would delete meta.json", site=lf.span)
         cl = [prog.body(r) for r in prog.body_refs(lf) if "{closure" in r]
         rep.check(any(c and any(t.get("f") == "tantivy::index::index_meta::SegmentMeta::list_files" for _, t in c.calls()) for c in cl + [lf]), R,
@@ -492,6 +527,10 @@ def _storage_root(body, cur, hops=10):
         if cur is None:
             return cur
         ds = defs.get(cur, [])
+        if len(ds) == 1 and ds[0][0] == "call" and re.search(r"Deref::deref$|::as_slice$|AsRef::as_ref$|Borrow::borrow$|::as_mut_slice$|DerefMut::deref_mut$", ds[0][2].get("f") or "") \
+                and ds[0][2].get("args") and op_local(ds[0][2]["args"][0]) is not None:
+            cur = op_local(ds[0][2]["args"][0])      # `&vec` coerced to `&[T]`
+            continue
         if not (len(ds) == 1 and ds[0][0] == "stmt" and ds[0][3].get("r") in ("ref", "use")):
             return cur
         st = ds[0][3]
